@@ -33,10 +33,20 @@ Record drv := mkDrv {
   d_is_plus : bool
 }.
 
-Section Driver.
-  Variable me : nat.   (* index of this object's radio in the world *)
+(* what the driver can do to the outside world: one CSN-framed SPI transfer, the CE pin *)
+Record busops (bus : Type) := mkBus {
+  b_spi : bus -> list N -> bus * list N;
+  b_ce : bus -> bool -> bus }.
+Arguments b_spi {bus}. Arguments b_ce {bus}.
 
-  Definition M (A : Type) := drv -> world -> result A * drv * world.
+(* radio number `me` of a world as a bus *)
+Definition WB (me : nat) : busops world :=
+  mkBus world (fun w m => w_spi w me m) (fun w v => w_ce w me v).
+
+Section Driver.
+  Context {bus : Type} (B : busops bus).
+
+  Definition M (A : Type) := drv -> bus -> result A * drv * bus.
   Definition ret {A} (a : A) : M A := fun d w => (Ok a, d, w).
   Definition raise {A} (e : exn) : M A := fun d w => (Exn e, d, w).
   Definition bind {A B} (m : M A) (f : A -> M B) : M B :=
@@ -53,13 +63,13 @@ Section Driver.
   (* one SPI transfer: MISO[0] lands in self._in[0] *)
   Definition xfer (mosi : list N) : M (list N) :=
     fun d w =>
-      let '(w', miso) := w_spi w me mosi in
+      let '(w', miso) := b_spi B w mosi in
       let d' := mkDrv (hd 0%N miso) (d_config d) (d_rf_setup d) (d_open_pipes d) (d_dyn_pl d) (d_aa d)
                       (d_features d) (d_retry_setup d) (d_channel d) (d_addr_len d) (d_pl_len d)
                       (d_pipe0 d) (d_pipe1 d) (d_pipes25 d) (d_tx_address d) (d_pipe0_read_addr d)
                       (d_is_plus d) in
       (Ok miso, d', w').
-  Definition set_ce (v : bool) : M unit := fun d w => (Ok tt, d, w_ce w me v).
+  Definition set_ce (v : bool) : M unit := fun d w => (Ok tt, d, b_ce B w v).
 
   (* self._out[i] = value raises ValueError unless 0 <= value <= 255 *)
   Definition as_byte (v : Z) : M N :=
